@@ -1,0 +1,65 @@
+//go:build verif
+
+package simhook
+
+import (
+	"iter"
+	"sort"
+)
+
+var (
+	// Order, when set, receives the sorted keys of the map that is about to be
+	// ranged at the named site and returns the keys in the order they must be
+	// visited. nil means the native (random) map order, as in production.
+	Order func(site string, sortedKeys []string) []string
+	// Step, when set, is called before each element is handed to the loop body.
+	Step func(site string, key string)
+	// ID, when set, supplies node identifiers instead of random uuids.
+	ID func() string
+)
+
+// NextID returns a simulated identifier when a source is installed.
+func NextID() (string, bool) {
+	if ID == nil {
+		return "", false
+	}
+
+	return ID(), true
+}
+
+// Seq ranges m like the built-in range statement would, except that the order
+// is the one chosen by Order. Keys deleted while the loop runs are skipped, as
+// the language guarantees for a native map range.
+func Seq[V any](site string, m map[string]V) iter.Seq2[string, V] {
+	return func(yield func(string, V) bool) {
+		if Order == nil {
+			for k, v := range m {
+				if Step != nil {
+					Step(site, k)
+				}
+				if !yield(k, v) {
+					return
+				}
+			}
+
+			return
+		}
+		keys := make([]string, 0, len(m))
+		for k := range m {
+			keys = append(keys, k)
+		}
+		sort.Strings(keys)
+		for _, k := range Order(site, keys) {
+			v, ok := m[k]
+			if !ok {
+				continue
+			}
+			if Step != nil {
+				Step(site, k)
+			}
+			if !yield(k, v) {
+				return
+			}
+		}
+	}
+}
